@@ -77,6 +77,38 @@ class Interp(_Base):
     def _comp_frame(self, st):
         st.frames.append({"__parent__": len(st.frames) - 1})
 
+    def _yield_into(self, s, vals):
+        for fr in reversed(s.frames):
+            if "__yield__" in fr:
+                cur = fr["__yield__"]
+                fr["__yield__"] = TupleV(cur.items + list(vals), True)
+                return True
+        return False
+
+    def ev_Yield(self, n, st):
+        out = []
+        for s, v in (self.ev(n.value, st) if n.value is not None else [(st, NONE)]):
+            if isinstance(v, Raised):
+                out.append((s, v))
+            elif self._yield_into(s, [v]):
+                out.append((s, NONE))
+            else:
+                out.append((s, self.undecided(s, n, "yield outside an interpreted generator")))
+        return out
+
+    def ev_YieldFrom(self, n, st):
+        out = []
+        for s, v in self.ev(n.value, st):
+            if isinstance(v, Raised):
+                out.append((s, v))
+                continue
+            items = self._as_items(v)
+            if items is None or not self._yield_into(s, items):
+                out.append((s, self.undecided(s, n, "yield from an unknown iterable")))
+            else:
+                out.append((s, NONE))
+        return out
+
     def ev_ListComp(self, n, st):
         return self._ev_comp(n, st, True)
 
@@ -376,6 +408,11 @@ class Interp(_Base):
         if fv.closure:
             for k, v in fv.closure.items():
                 frame.setdefault(k, v)
+        is_gen = any(isinstance(x, (ast.Yield, ast.YieldFrom)) for x in _own_scope(fnode))
+        if is_gen:
+            # a generator function: interpreted eagerly, the call yields the list of what it
+            # produces (no effects are attributed to laziness)
+            frame["__yield__"] = TupleV([], True)
         st.frames.append(frame)
         self.cur_mod.append(fv.mod)
         qual = getattr(fnode, "_qual", fnode.name)
@@ -391,7 +428,10 @@ class Interp(_Base):
             self.call_chain.pop()
         res = []
         for s, oc in outs:
-            s.frames.pop()
+            fr_ = s.frames.pop()
+            if is_gen and oc[0] != "raise":
+                res.append((s, ("ret", fr_.get("__yield__", TupleV([], True)))))
+                continue
             if cached and oc[0] == "ret" and isinstance(oc[1], RefV):
                 # a memoised result is one object shared by every caller with equal arguments
                 o = s.heap[oc[1].oid]
@@ -682,6 +722,20 @@ class Interp(_Base):
                 if len(r) <= 200:
                     return R(TupleV([IntV(i, i) for i in r], is_list=True))
             return R(self.undecided(st, node, "range"))
+        if name in ("product", "module:itertools.product") and args and not kwargs:
+            seqs = [self._as_items(a) for a in args]
+            if all(s_ is not None for s_ in seqs):
+                import itertools as _it
+                n_ = 1
+                for s_ in seqs:
+                    n_ *= max(1, len(s_))
+                if n_ <= 2000:
+                    return R(TupleV([TupleV(list(t)) for t in _it.product(*seqs)], is_list=True))
+            return R(self.undecided(st, node, "itertools.product"))
+        if name in ("chain", "module:itertools.chain") and args and not kwargs:
+            seqs = [self._as_items(a) for a in args]
+            if all(s_ is not None for s_ in seqs):
+                return R(TupleV([x for s_ in seqs for x in s_], is_list=True))
         if name == "zip":
             seqs = [self._as_items(a) for a in args]
             if all(s is not None for s in seqs):
@@ -758,6 +812,16 @@ class Interp(_Base):
             if meth in ("strftime", "isoformat"):
                 return R(StrV(None, sym=("strftime",)))
             return R(self.undecided(st, node, "datetime method " + meth))
+        if name == "groupdict.get" and args:
+            out_ = []
+            kn = node.args[0] if getattr(node, "args", None) else None
+            for s_, v_ in self._match_call(st, b.match, "group", [args[0]], node, knode=kn):
+                if isinstance(v_, NoneV) and len(args) > 1:
+                    v_ = args[1]
+                elif isinstance(v_, Raised) and getattr(v_, "exc", "") == "IndexError":
+                    v_ = args[1] if len(args) > 1 else NONE      # dict.get of an unknown key
+                out_.append((s_, v_))
+            return out_
         if name.startswith("match."):
             return self._match_call(st, b, name[6:], args, node)
         if name.startswith("str."):
@@ -805,6 +869,20 @@ class Interp(_Base):
                 for s2, v in self.subscript(st, b, args[0], node):
                     out.append((s2, default if isinstance(v, Raised) else v))
                 return out
+            if meth in ("append", "extend") and isinstance(b, TupleV) and b.is_list and len(args) == 1 \
+                    and isinstance(getattr(node, "func", None), ast.Attribute):
+                # a local list grown in place: the variable is rebound to the longer list (the
+                # interpreter's lists are values; a second name for the same list is not followed)
+                slot = self.slot_of(node.func.value, st)
+                if slot is not None and slot[0] == "var":
+                    if meth == "append":
+                        new_items = b.items + [args[0]]
+                    else:
+                        more = self._as_items(args[0])
+                        new_items = None if more is None else b.items + list(more)
+                    if new_items is not None:
+                        self.write_slot(st, slot, TupleV(new_items, True))
+                        return R(NONE)
             if meth == "index" and isinstance(b, TupleV) and args:
                 return R(IntV(0, max(len(b.items) - 1, 0), ("index",)))
             return R(self.undecided(st, node, "collection method " + meth))
@@ -1520,6 +1598,18 @@ class Interp(_Base):
     def st_ClassDef(self, n, st):
         self.undecided(st, n, "nested class")
         return [(st, ("next",))]
+
+
+def _own_scope(fn):
+    out = []
+    stack = list(fn.body)
+    while stack:
+        n = stack.pop()
+        out.append(n)
+        if isinstance(n, (ast.FunctionDef, ast.AsyncFunctionDef, ast.Lambda, ast.ClassDef)):
+            continue
+        stack.extend(ast.iter_child_nodes(n))
+    return out
 
 
 class _RawFunc(FuncV):
